@@ -690,7 +690,48 @@ func c15r4(p *model.Prog, r *report.Result) {
 			if _, isErr := x.Type().Underlying().(*types.Interface); !isErr {
 				return false
 			}
-			return nonNil != pol
+			if nonNil == pol {
+				return false
+			}
+			// the value tested carries the result of every write of the function (a merge of them):
+			// a test of some other error variable says nothing about the write
+			leaves := map[ssa.Value]bool{}
+			var expand func(v ssa.Value, d int)
+			expand = func(v ssa.Value, d int) {
+				if leaves[v] || d > 8 {
+					return
+				}
+				leaves[v] = true
+				if ph, isPhi := v.(*ssa.Phi); isPhi {
+					for _, e := range ph.Edges {
+						expand(e, d+1)
+					}
+				}
+			}
+			expand(x, 0)
+			for _, w := range model.AllCalls(fn) {
+				name := ""
+				if o := model.CalleeObj(w.Common()); o != nil {
+					name = o.Name()
+				} else if w.Common().IsInvoke() {
+					name = w.Common().Method.Name()
+				}
+				if !strings.HasPrefix(name, "Write") || w.Value() == nil {
+					continue
+				}
+				found := leaves[w.Value()]
+				if refs := w.Value().Referrers(); refs != nil {
+					for _, ref := range *refs {
+						if ex, isEx := ref.(*ssa.Extract); isEx && leaves[ex] {
+							found = true
+						}
+					}
+				}
+				if !found {
+					return false
+				}
+			}
+			return true
 		})
 		r.Check(ok, "C15.R4", fkey(fn, "alive", "count-accepted-only"), p.InstrPos(ci), "counted only when the write was accepted", "bytes are counted for packets the write queue rejected: a stalled interleaved subscriber keeps looking write-alive, the sweep never disconnects it and its socket, goroutine and queued packets stay attached to the stream for ever")
 	}
